@@ -74,7 +74,8 @@ def predicate(case, i, tb):
         if two and t1[3] != t2[3]:
             if evs: v('cross-mount %s reached a backend' % op, kind='cross-mount-forwarded')
         for e in evs:
-            if e['bid'] != t1[1] or e['ino'] != t1[2] or e['m'] != op or (two and e['ino2'] != t2[2]):
+            want_m = ('a:' + op) if st.get('mode') in ('a', 'y') else op      # the trait method of the entry point used
+            if e['bid'] != t1[1] or e['ino'] != t1[2] or e['m'] != want_m or (two and e['ino2'] != t2[2]):
                 v('event %s, expected backend %d inode %d' % (e, t1[1], t1[2]), kind='misrouted')
         if len(evs) > 1: v('more than one backend call for one request', kind='duplicated')
     # 2. vacant slot: error, nothing reached (forget has no reply)
@@ -294,8 +295,33 @@ def sc_refused_umount(sess, rng, tb, findings, rm):
     if not c.dead: probe_mount_paths(g, c, findings)
     return c
 
+def async_block(g, tb, targets, ids=(0, 0)):
+    """each of the ten async operations (ready and pending-once futures) on each target inode"""
+    for x in targets:
+        for op in tb.async_ops:
+            for mode in ('a', 'y'):
+                if g.c.dead: return
+                e = {'ino': 21, 'stino': 21, 'uid': ids[0], 'gid': ids[1], 'tag': 4}
+                g.request(op, x, mode=mode, name=('norm', 3), uid=ids[0], gid=ids[1], auid=ids[1], agid=ids[0], size=FATTR_UID | FATTR_GID if op == 'setattr' else 4096,
+                          offset=0, ans=mk_ans(ent=e, attr={'ino': 9, 'uid': ids[0], 'gid': ids[1], 'tag': 2}, tag=7))
+
+def sc_async(sess, rng, tb, findings):
+    """async entry points on: a pseudo inode, the root, a mount root, another backend inode, a vacant slot, an inode of an
+    unmounted file system, nodeid 1 of a root mount"""
+    c = new_case(sess, rng, tb, no_open=int(rng.random() < 0.5)); g = HistoryGen(c, rng)
+    st1, o1 = g.mount(path=mk_path(rng, [('N', 1), ('N', 2)], noise=False), ans=okmount(rng))
+    st2, o2 = g.mount(path=mk_path(rng, [('N', 3)], noise=False), ans=okmount(rng))
+    g.umount(mk_path(rng, [('N', 3)], noise=False))
+    targets = [ROOT_INO, 2, 9, (1 << 56) | 1, (1 << 56) | 77, (2 << 56) | 1, (40 << 56) | 5]
+    async_block(g, tb, targets)
+    if not c.dead:
+        g.mount(path=mk_path(rng, [], noise=False), ans=okmount(rng, 7))
+        async_block(g, tb, [ROOT_INO, 2])
+    return c
+
 def gen_cases(sess, rng, tb, tier, findings):
     cases = []
+    if not os.environ.get('VFS_NO_ASYNC'): cases.append(sc_async(sess, rng, tb, findings))
     if not os.environ.get('VFS_NO_DET'):
         cases.append(sc_refused_umount(sess, rng, tb, findings, 1)); cases.append(sc_refused_umount(sess, rng, tb, findings, 0))
     q = tier == 'quick'
@@ -335,7 +361,7 @@ def run_check(tier, seed):
     if not okm:
         es = coq_error_site(outm)
         broken.append({'kind': 'proof', 'theorem_or_lemma': es[2] if es else None, 'site': list(es[:2]) if es else None, 'message': es[3] if es else outm[-1500:]})
-    ok, out, bindir = cargo_build(['vfs'], features=['persist'])     # same feature set as C19: the three checks share the binary
+    ok, out, bindir = cargo_build(['vfs'], features=['persist', 'async-io'])     # same feature set as C19: the three checks share the binary
     if not ok:
         broken.append({'kind': 'harness-build', 'log': out[-3000:]})
         return finish(ev, PROP, findings, broken)
